@@ -159,19 +159,6 @@ func diff(v0, v1 any, one bool, ignores ...Path) (diffs []Path) {
 			diffs = append(diffs, Path{nil})
 			break
 		}
-		var childIgnores []Path
-		ii := -1
-		for _, ign := range ignores {
-			if 1 < len(ign) {
-				switch ti := ign[0].(type) {
-				case nil:
-					childIgnores = append(childIgnores, ign[1:])
-				case int:
-					ii = ti
-					childIgnores = append(childIgnores, ign[1:])
-				}
-			}
-		}
 		for i, m1 := range t0 {
 			if ignoreIndex(i, ignores) {
 				continue
@@ -180,12 +167,21 @@ func diff(v0, v1 any, one bool, ignores ...Path) (diffs []Path) {
 				diffs = append(diffs, Path{i})
 				return
 			}
-			var ds []Path
-			if ii == i || ii < 0 {
-				ds = diff(m1, t1[i], one, childIgnores...)
-			} else {
-				ds = diff(m1, t1[i], one)
+			// The ignore paths that continue below this index.
+			var childIgnores []Path
+			for _, ign := range ignores {
+				if 1 < len(ign) {
+					switch ti := ign[0].(type) {
+					case nil:
+						childIgnores = append(childIgnores, ign[1:])
+					case int:
+						if ti == i {
+							childIgnores = append(childIgnores, ign[1:])
+						}
+					}
+				}
 			}
+			ds := diff(m1, t1[i], one, childIgnores...)
 			for _, d := range ds {
 				if len(d) == 1 && d[0] == nil {
 					d[0] = i
